@@ -1,2 +1,52 @@
-(* placeholder: statements are added when Proofs exist *)
+(* C07 — membership in a context-free language is decided exactly: the CYK table of a grammar in Chomsky normal
+   form contains exactly the variables that generate the corresponding subword, cfg_accepts_word is exact on CNF
+   grammars and (after the conversion of C08) on arbitrary grammars, CFG.is_chomsky is the CNF predicate, and
+   cfg_words_up_to_n enumerates exactly the words of the language up to the given length.
+   `cfg_lang G w` is the specification by derivations on sentential forms (Model/CFG.v); `yields` are parse trees
+   (the two agree: Proofs/CFGBasics.derives_yields).
+   Definitions local to Proofs files, referred to qualified:
+     `CYKProofs.subword w i j` = w[i..j] inclusive                                   (Proofs/CYKProofs.v);
+     `ChomskyEpsUnitProofs.names_disjoint G` = no variable name is a terminal name     (Proofs/ChomskyEpsUnitProofs.v);
+     `ChomskyEpsUnitProofs.perm_order ordV` = the iteration order of a set is a permutation of it (same file).
+   For arbitrary grammars the fresh variable names come from `stream` (Model/Chomsky.v); the result `None` means
+   that the conversion ran out of names or was handed a name that is already a variable (C08_to_chomsky_total).
+   The hypothesis that no name of the stream is a terminal name cannot be dropped
+   (C08_to_chomsky_needs_nonterminal_names).  `ids_consistent` is not needed. *)
 From GT Require Import Base.Prelude Model.CFG Model.Chomsky Model.CYK.
+From GT Require Proofs.CFGBasics Proofs.CYKProofs Proofs.CFGEnumProofs Proofs.ChomskyEpsUnitProofs Proofs.ChomskyFinal.
+
+Theorem C07_cyk_cell_exact : forall (G : cfg) (w : word) (i j A : nat),
+  is_chomsky G -> cfg_wf G -> i <= j -> j < length w ->
+  (In A (cget (cyk G w) i j) <-> In A (gV G) /\ yields G (Var A) (CYKProofs.subword w i j)).
+Proof. exact CYKProofs.cyk_cell_exact. Qed.
+
+Theorem C07_cnf_membership_exact : forall (G : cfg) (w : word),
+  is_chomsky G -> cfg_wf G -> (cnf_accepts G w = true <-> cfg_lang G w).
+Proof. exact CYKProofs.cnf_accepts_correct. Qed.
+
+Theorem C07_membership_exact_any_grammar : forall (ordV : list nat -> list nat) (stream : list nat) (G : cfg) (w : word) (b : bool),
+  cfg_wf G -> ChomskyEpsUnitProofs.names_disjoint G -> In (gS G) (gV G) -> ChomskyEpsUnitProofs.perm_order ordV ->
+  (forall x, In x stream -> ~ In x (gSg G)) ->
+  cfg_accepts ordV stream G w = Some b -> (b = true <-> cfg_lang G w).
+Proof. exact ChomskyFinal.cfg_accepts_correct. Qed.
+
+Theorem C07_is_chomsky_reflect : forall G : cfg, is_chomsky_b G = true <-> is_chomsky G.
+Proof. exact CFGBasics.is_chomsky_b_spec. Qed.
+
+(* cfg_words_up_to_n (as repaired, F12) *)
+Theorem C07_words_up_to_n_cnf : forall (G : cfg) (n : nat) (w : word),
+  is_chomsky G -> (In w (cnf_words G n) <-> length w <= n /\ cfg_lang G w).
+Proof. exact CFGEnumProofs.cnf_words_exact. Qed.
+
+Theorem C07_words_up_to_n_any_grammar : forall (ordV : list nat -> list nat) (stream : list nat) (G : cfg) (n : nat) (L : list word),
+  cfg_wf G -> ChomskyEpsUnitProofs.names_disjoint G -> In (gS G) (gV G) -> ChomskyEpsUnitProofs.perm_order ordV ->
+  (forall x, In x stream -> ~ In x (gSg G)) ->
+  cfg_words ordV stream G n = Some L -> forall w, In w L <-> length w <= n /\ cfg_lang G w.
+Proof. exact ChomskyFinal.cfg_words_exact. Qed.
+
+Print Assumptions C07_cyk_cell_exact.
+Print Assumptions C07_cnf_membership_exact.
+Print Assumptions C07_membership_exact_any_grammar.
+Print Assumptions C07_is_chomsky_reflect.
+Print Assumptions C07_words_up_to_n_cnf.
+Print Assumptions C07_words_up_to_n_any_grammar.
